@@ -234,10 +234,14 @@ func configYAML(os_ outputSet) string {
 // parseConfig runs the real run.ParseConfigFile on a scratch file (removed at once). The text is PARSED anew for every
 // pipeline, so that no configuration string is shared between two pipelines of this process.
 func parseConfig(os_ outputSet) (run.Config, base.LogSchema) {
-	dir := hutil.ScratchRoot("seqiso")
+	return parseConfigText(hutil.ScratchRoot("seqiso"), configYAML(os_))
+}
+
+// parseConfigText parses a configuration text through a file in the scratch directory dir, which is removed
+func parseConfigText(dir string, text string) (run.Config, base.LogSchema) {
 	defer os.RemoveAll(dir)
 	path := filepath.Join(dir, "config.yml")
-	if err := os.WriteFile(path, []byte(configYAML(os_)), 0o644); err != nil {
+	if err := os.WriteFile(path, []byte(text), 0o644); err != nil {
 		panic(err)
 	}
 	conf, schema, _, err := run.ParseConfigFile(path)
@@ -847,6 +851,7 @@ func enumerate(ctx *seq.Ctx) {
 			}
 		}
 	}
+	enumerateOrchestrated(ctx)
 	ctx.Note(fmt.Sprintf("pool-reuse/worker-pid-%d", os.Getpid()), fmt.Sprintf("%d records processed in sequences, %d reused *LogRecord, %d reused backing buffers, %d cases with reuse below the pool model's expectation", poolStats.records, poolStats.recHits, poolStats.bufHits, poolStats.belowExpectation))
 }
 
